@@ -74,14 +74,14 @@ def edge (s : St) (t : Tid) (e : Ev) : String :=
   match s.pc t, e with
   | .idle, .call k => "idle/call-" ++ kindName k
   | .aCalled, .ld _ _ v => "aCalled/ld-" ++ b v
-  | .aHold _ nt, .st _ _ => "aHold/st-notified" ++ b nt
-  | .aHold st _, .cna _ => "aHold/cna-stored" ++ b st
+  | .aHold _ _, .st _ _ => "aHold/st"
+  | .aHold _ _, .cna _ => "aHold/cna"
   | .aHold _ _, .mul _ => "aHold/mul"
   | .aRet r, _ => "aRet/" ++ b r
   | .tCalled x, .ld _ _ v => "tCalled/ld-" ++ b v ++ "-" ++ ctxName x
   | .tLock x, _ => "tLock/" ++ ctxName x
-  | .tHold _ _ nt, .st _ _ => "tHold/st-notified" ++ b nt
-  | .tHold _ st _, .cna _ => "tHold/cna-stored" ++ b st
+  | .tHold _ _ _, .st _ _ => "tHold/st"
+  | .tHold _ _ _, .cna _ => "tHold/cna"
   | .tHold x _ _, .mul _ => "tHold/mul-" ++ ctxName x
   | .tRet r, _ => "tRet/" ++ b r
   | .wCalled k, .ld _ _ v => "wCalled/ld-" ++ b v ++ "-" ++ wkName k
@@ -95,26 +95,25 @@ def edge (s : St) (t : Tid) (e : Ev) : String :=
   | .wUnlock k r, _ => "wUnlock/" ++ wkName k ++ "-" ++ b r
   | .wRet k r, _ => "wRet/" ++ wkName k ++ "-" ++ b r ++ (if (s.obs t).isSome then "-observed" else "")
   | .rLocked, .ld _ _ v => "rLocked/ld-" ++ b v
-  | .rLoop, .ld _ o v => "rLoop/ld-" ++ b v ++ (if o = .acq then "-acq" else "-sc")
+  | .rLoop, .ld _ _ v => "rLoop/ld-" ++ b v
   | .rUnlock st, _ => "rUnlock/" ++ b st
   | .oCalled a, _ => "oCalled/" ++ sideName a
   | .oRet a v, _ => "oRet/" ++ sideName a ++ "-" ++ b v
   | _, _ => p
 
-/-- the edges today's code must exercise in every check.  Accepted by the model but not required
-(today's code never does it): store/notify in the other order (`aHold/st-notified1`, `aHold/cna-stored0`,
-`tHold/st-notified1`, `tHold/cna-stored0`), a seq_cst load in reset's loop (`rLoop/ld-*-sc`), a spurious
-wake-up of a timed wait is covered through the untimed ones (the key does not mention the method);
-`wTimedOut/ld-1-*` (the deciding load after a time-out reads `true`) is what the code is prepared for but
-cannot happen: the model's `cwk timeout` re-acquires the mutex in the same step, and
-`C11_timeout_sees_false` proves the flag is false then. -/
+/-- the edges today's code must exercise in every check.  The keys deliberately do not record what the
+discipline leaves free (the order of store and notify inside trigger()'s / activate()'s critical section, the
+memory order of reset's loop load when it is at least acquire, which method a spurious wake-up hits), so a
+harmless rewrite of those keeps every edge covered.  `wTimedOut/ld-1-*` (the deciding load after a time-out
+reads `true`) is what the code is prepared for but cannot happen: the model's `cwk timeout` re-acquires the
+mutex in the same step, and `C11_timeout_sees_false` proves the flag is false then; it is not required. -/
 def edges : List String :=
   ["idle/call-activate", "idle/call-trigger", "idle/call-wait", "idle/call-waitFor", "idle/call-waitAct",
    "idle/call-waitForAct", "idle/call-reset", "idle/call-isActive", "idle/call-isTriggered",
-   "aCalled/ld-0", "aCalled/ld-1", "aLockT", "aClear", "aUnlockT", "aLockA", "aHold/st-notified0",
-   "aHold/cna-stored1", "aHold/mul", "aRet/0", "aRet/1",
+   "aCalled/ld-0", "aCalled/ld-1", "aLockT", "aClear", "aUnlockT", "aLockA", "aHold/st",
+   "aHold/cna", "aHold/mul", "aRet/0", "aRet/1",
    "tCalled/ld-0-top", "tCalled/ld-1-top", "tCalled/ld-0-inReset", "tCalled/ld-1-inReset",
-   "tLock/top", "tLock/inReset", "tHold/st-notified0", "tHold/cna-stored1", "tHold/mul-top",
+   "tLock/top", "tLock/inReset", "tHold/st", "tHold/cna", "tHold/mul-top",
    "tHold/mul-inReset", "tRet/0", "tRet/1",
    "wCalled/ld-0-wait", "wCalled/ld-1-wait", "wCalled/ld-0-waitFor", "wCalled/ld-1-waitFor",
    "wLock/wait", "wLock/waitFor", "wLock/waitAct", "wLock/waitForAct",
@@ -128,7 +127,7 @@ def edges : List String :=
    "wUnlock/waitForAct-1",
    "wRet/wait-1", "wRet/wait-1-observed", "wRet/waitFor-1", "wRet/waitFor-1-observed", "wRet/waitFor-0-observed",
    "wRet/waitAct-1", "wRet/waitForAct-0", "wRet/waitForAct-1",
-   "rCalled", "rLocked/ld-0", "rLocked/ld-1", "rLoop/ld-0-acq", "rLoop/ld-1-acq", "rRelease", "rRelock",
+   "rCalled", "rLocked/ld-0", "rLocked/ld-1", "rLoop/ld-0", "rLoop/ld-1", "rRelease", "rRelock",
    "rStore", "rUnlock/0", "rUnlock/1", "rRet",
    "oCalled/trig", "oCalled/act", "oRet/trig-0", "oRet/trig-1", "oRet/act-0", "oRet/act-1"]
 
